@@ -317,6 +317,7 @@ def run_case(args):
         case = next(c for c in contract.cases if c.name == case_name)
         confirmed = set()
         n_replays = 0
+        n_witness = 0
         for ob in rep.obligations:
             rec = {
                 "id": ob.id, "kind": ob.kind, "status": ob.status, "backend": ob.backend, "ms": ob.ms,
@@ -337,6 +338,18 @@ def run_case(args):
                     confirmed.add(ckey)
                 elif ob.status == "refuted":
                     rec["status"] = "refuted-unconfirmed"
+            elif (ob.kind in ("post", "safety", "raises") and ob.status == "undecided" and ckey not in confirmed and n_witness < 6
+                  and not (ob.reason or "").startswith(("outside the verified subset", "spec not evaluable", "anchor"))):
+                # the solvers gave no verdict (typically an uninterpreted casefold / nq_spec in a clause that no longer holds): ordinary inputs - the
+                # contract's witness builder and the generic witnesses - are still run through the real code; a failing one makes the obligation refuted
+                n_witness += 1
+                try:
+                    rec["replay"] = try_replay(contract, registry, case, ob, with_models=False)
+                except Exception as e:  # noqa
+                    rec["replay"] = {"confirmed": False, "error": "%s: %s" % (type(e).__name__, e)}
+                if rec["replay"] and rec["replay"].get("confirmed"):
+                    rec["status"] = "refuted"
+                    confirmed.add(ckey)
             elif ob.status == "refuted" and ob.kind not in ("canary", "cover"):
                 rec["status"] = "refuted-unconfirmed"  # counter-model without a replayed input
             out["obligations"].append(rec)
@@ -395,12 +408,13 @@ def concretize(spec, name, vals, top=True):
     return spec
 
 
-def try_replay(contract, registry, case, ob):
+def try_replay(contract, registry, case, ob, with_models=True):
     """Turn counter-models into inputs, run engine-concrete and the real function, evaluate the clause."""
     builder = getattr(contract, "witness", None)
     tried = []
     generic_done = False
-    for vals, gvals in candidate_inputs(contract, case, ob)[:6]:
+    cands = candidate_inputs(contract, case, ob)[:6] if with_models else []
+    for vals, gvals in (cands or [({}, {})]):  # (no counter-model: still try the contract's witness builder and the generic witnesses)
         kwargs_list = []
         base = {}
         for pname, spec in case.params.items():
